@@ -15,6 +15,9 @@ CLAIMS = {
  'C19': dict(engine='BIT+ALG', technique='bit-level abstract interpretation in GF(2) algebraic normal form (canonical, exact for all inputs); loop-body state-transformer templates (Euclid, integer Newton) with start-value partition on bit length',
    cat='proof', text='bit reversal (4 widths) and the 12 little/big-endian load/store accessors are proved bit-for-bit for all inputs (ANF equality), incl. that only byte accesses inside the object occur; gcd is shown to be exactly the Euclid recurrence, isqrt exactly the integer Newton iteration with a start value compared against floor(sqrt(2^L-1)) for every bit length L and an overflow check, lcm the divide-before-multiply shape with the gcd==0 case separated',
    note=TRUST + '; the gcd and isqrt clauses rest on the two cited textbook lemmas about the recognised algorithms (a different algorithm, e.g. binary gcd or digit-by-digit sqrt, makes the check INCONCLUSIVE, not PASS); only the __builtin_clz (Newton) branch that this host compiles is analysed'),
+ 'C17': dict(engine='BIT+ALG', technique='loop-body state transformers in GF(2) algebraic normal form with uninterpreted table atoms; trip-count/preload/store/fold-shape rules on the loop structure; composition lemma with checked premises',
+   cat='proof', text='for all 7 update routines the byte step is proved to be shift8(value) ^ table[index] with the index bits value_hi/lo ^ byte; for all 8 generators the inner-loop body is proved to be one step of bit-by-bit polynomial division (reflected polynomial of the same width for the LSB-first forms), GF(2)-linear in the register, executed 8 times from the right preload for c = 0..255 and stored truncated at table[c]; every routine is a left fold from the value parameter returning the accumulator (chunk composition); both hashes are left folds whose string and length-delimited forms have the same step',
+   note=TRUST + ', lib/bit.py ANF; the step from these premises to "table-driven CRC = bitwise remainder for every polynomial, initial value and byte string" and the m/l reflection duality is the lemma written out in specs/crc_lemma.md (not machine-checked); pointers assumed not to alias; hashes have no independent definition, only fold shape and form agreement are decided'),
 }
 
 NA = {
@@ -48,7 +51,7 @@ def main():
         'engines': [
             {'name': 'irx+llir', 'path': 'lib/irx.py, lib/llir.py', 'serves_properties': sorted(CLAIMS), 'kind_free_text': 'clang/opt IR pipeline and IR reader (CFG, dominators, loops, def-use)'},
             {'name': 'ALG', 'path': 'lib/symx.py, lib/alg.py', 'serves_properties': ['C15', 'C19'], 'kind_free_text': 'abstract interpreter over exact algebraic values with trace partitioning'},
-            {'name': 'BIT', 'path': 'lib/bit.py, lib/looptx.py', 'serves_properties': ['C19'], 'kind_free_text': 'GF(2) algebraic-normal-form bit vectors; loop-body state transformers'},
+            {'name': 'BIT', 'path': 'lib/bit.py, lib/looptx.py', 'serves_properties': ['C17', 'C19'], 'kind_free_text': 'GF(2) algebraic-normal-form bit vectors; loop-body state transformers'},
             {'name': 'ABI', 'path': 'props/C20.py, lib/dwarf.py, lib/rustsrc.py', 'serves_properties': ['C20'], 'kind_free_text': 'declaration and layout agreement'},
         ],
         'checks': checks,
